@@ -171,7 +171,7 @@ def run_job(job):
             if kind in ("exe", "dynexe"):
                 try:
                     p = subprocess.run([out], stdout=subprocess.PIPE, stderr=subprocess.PIPE,
-                                       timeout=20, env={"LD_LIBRARY_PATH": workdir})
+                                       timeout=90, env={"LD_LIBRARY_PATH": workdir})
                     got = p.stdout
                     rc = p.returncode
                 except subprocess.TimeoutExpired:
